@@ -7,13 +7,13 @@
      schema    := ntypes type* root root root ndirs directive*
      root      := 0 | name+1
      type      := name tag ...   tag 0: sort | 1,2: nfields field* nifaces name*
-                                 | 3: n name* | 4: n name* | 5: oneof nfields inval*
+                                 | 3: n name* | 4: n name* | 5: oneof nfields inval* | 6: (not a type)
      field     := name tref dep nargs inval*
      inval     := name tref dep dflt
      tref      := 0 name | 1 tref | 2 tref
      dflt      := 0 | 1 | 2 lit
      lit       := 0 | 1 neg mag | 2 | 3 | 4 b | 5 name | 6 n lit* | 7 n (name lit)*
-     directive := name haslocs nargs inval*                                          *)
+     directive := name isdirective haslocs nargs inval*                                          *)
 From GV Require Import Base.Prelude Types.SchemaValidate.
 
 Definition dec (A : Type) : Type := list N -> option (A * list N).
@@ -139,6 +139,7 @@ Definition dec_type (fuel : nat) : dec (N * tdef) :=
     | n :: 5 :: o :: r =>
         match dec_counted (dec_inval fuel) r with
         | Some (fs, r') => Some ((n, DInput (negb (o =? 0)) fs), r') | None => None end
+    | n :: 6 :: r => Some ((n, DBogus), r)
     | _ => None
     end.
 
@@ -151,10 +152,11 @@ Definition dec_root : dec (option N) :=
 
 Definition dec_directive (fuel : nat) : dec directive :=
   fun l =>
-    match dec_n l with None => None | Some (n, r1) =>
+    match dec_n l with None => None | Some (n, r0) =>
+    match dec_b r0 with None => None | Some (isd, r1) =>
     match dec_b r1 with None => None | Some (hl, r2) =>
     match dec_counted (dec_inval fuel) r2 with None => None | Some (args, r3) =>
-    Some (mkDir n hl args, r3) end end end.
+    Some (mkDir n isd hl args, r3) end end end end.
 
 Definition dec_schema (l : list N) : option raw_schema :=
   let fuel := length l in
